@@ -82,6 +82,8 @@ theorem deliver_commitStep (env : Env) (c : Chain) (now : UInt64) (m : Msg) :
       subst he
       exact .sent p ⟨ok, rfl⟩ hsrc rfl
     | updateClient chain h root signer ok => obtain ⟨cls, he⟩ := updateClient_ok hh; subst he; exact .same rfl
+    | toggleClient chain cl => obtain ⟨cls, he⟩ := toggleClient_ok (by simpa [handle] using hh); subst he; exact .same rfl
+    | upgradeClient chain cl => obtain ⟨cls, he⟩ := upgradeClient_ok (by simpa [handle] using hh); subst he; exact .same rfl
     | createClient chain cl => simp only [handle] at hh; injection hh with hh; subst hh; exact .same rfl
     | registerRelayer r => simp only [handle] at hh; injection hh with hh; subst hh; exact .same rfl
     | restart => simp only [handle] at hh; injection hh with hh; subst hh; exact .same rfl
@@ -95,6 +97,8 @@ theorem deliver_name (env : Env) (c : Chain) (now : UInt64) (m : Msg) : (deliver
     | acknowledgement packet ack proof h signer o => exact (handle_ack_effect hh).name
     | sendPacket p ok => obtain ⟨_, _, _, _, he⟩ := sendPacket_ok hh; subst he; rfl
     | updateClient chain h root signer ok => obtain ⟨cls, he⟩ := updateClient_ok hh; subst he; rfl
+    | toggleClient chain cl => obtain ⟨cls, he⟩ := toggleClient_ok (by simpa [handle] using hh); subst he; rfl
+    | upgradeClient chain cl => obtain ⟨cls, he⟩ := upgradeClient_ok (by simpa [handle] using hh); subst he; rfl
     | createClient chain cl => simp only [handle] at hh; injection hh with hh; subst hh; rfl
     | registerRelayer r => simp only [handle] at hh; injection hh with hh; subst hh; rfl
     | restart => simp only [handle] at hh; injection hh with hh; subst hh; rfl
@@ -197,6 +201,8 @@ theorem deliver_acks (env : Env) (c : Chain) (now : UInt64) (m : Msg) :
       · exact Or.inr (Or.inr ⟨packet, ack, proof, h, signer, o, rfl, rfl, hne⟩)
     | sendPacket p ok => obtain ⟨_, _, _, _, he⟩ := sendPacket_ok hh; subst he; exact Or.inl rfl
     | updateClient chain h root signer ok => obtain ⟨cls, he⟩ := updateClient_ok hh; subst he; exact Or.inl rfl
+    | toggleClient chain cl => obtain ⟨cls, he⟩ := toggleClient_ok (by simpa [handle] using hh); subst he; exact Or.inl rfl
+    | upgradeClient chain cl => obtain ⟨cls, he⟩ := upgradeClient_ok (by simpa [handle] using hh); subst he; exact Or.inl rfl
     | createClient chain cl => simp only [handle] at hh; injection hh with hh; subst hh; exact Or.inl rfl
     | registerRelayer r => simp only [handle] at hh; injection hh with hh; subst hh; exact Or.inl rfl
     | restart => simp only [handle] at hh; injection hh with hh; subst hh; exact Or.inl rfl
@@ -349,6 +355,8 @@ theorem ack_accept_consumes (env : Env) (hash : HashOk env) (c : Chain) (now : U
   | recvPacket packet proof h signer cb => simp [ackKeyOf] at hk
   | sendPacket p ok => simp [ackKeyOf] at hk
   | updateClient chain h root signer ok => simp [ackKeyOf] at hk
+  | toggleClient chain cl => simp [ackKeyOf] at hk
+  | upgradeClient chain cl => simp [ackKeyOf] at hk
   | createClient chain cl => simp [ackKeyOf] at hk
   | registerRelayer r => simp [ackKeyOf] at hk
   | restart => simp [ackKeyOf] at hk
@@ -482,6 +490,8 @@ theorem deliver_onAckCount (env : Env) (c : Chain) (now : UInt64) (m : Msg) (k :
       · left; simp [onAckCount, hevm]
     | sendPacket p ok => obtain ⟨_, _, _, _, he⟩ := sendPacket_ok hh; subst he; left; simp [onAckCount]
     | updateClient chain h root signer ok => obtain ⟨cls, he⟩ := updateClient_ok hh; subst he; left; rfl
+    | toggleClient chain cl => obtain ⟨cls, he⟩ := toggleClient_ok (by simpa [handle] using hh); subst he; left; rfl
+    | upgradeClient chain cl => obtain ⟨cls, he⟩ := upgradeClient_ok (by simpa [handle] using hh); subst he; left; rfl
     | createClient chain cl => simp only [handle] at hh; injection hh with hh; subst hh; left; rfl
     | registerRelayer r => simp only [handle] at hh; injection hh with hh; subst hh; left; rfl
     | restart => simp only [handle] at hh; injection hh with hh; subst hh; left; rfl
